@@ -71,9 +71,10 @@ type c34Exp struct {
 func (e *c34Exp) mustFail() bool { return e.Werr || e.CerrW }
 
 type c34Vec struct {
-	Sc       c34Sc  `json:"sc"`
-	Declared int    `json:"declared"`
-	Expect   c34Exp `json:"expect"`
+	Entries  []string `json:"entries"` // only in the record that lists the client entry points
+	Sc       c34Sc    `json:"sc"`
+	Declared int      `json:"declared"`
+	Expect   c34Exp   `json:"expect"`
 }
 
 func (v *c34Vec) String() string {
@@ -699,8 +700,8 @@ func (r *c34Run) liveServer(v *c34Vec, unit, limit, salt int) {
 
 // ---------------------------------------------------------------- (c) live client
 
-func (r *c34Run) liveClient(v *c34Vec, unit, limit, salt int) {
-	const bind = "HostClient"
+func (r *c34Run) liveClient(v *c34Vec, unit, limit, salt int, entry string) {
+	bind := entry
 	core, stream := c34NewStream(v, unit, salt)
 	viaClient := v.Sc.viaClient()
 	type c34Peer struct {
@@ -712,39 +713,62 @@ func (r *c34Run) liveClient(v *c34Vec, unit, limit, salt int) {
 	var peers []*c34Peer
 	var srvDone sync.WaitGroup
 	var conns []net.Conn // closed by the harness at the end: a panic inside Do leaks its connection
-	hc := &HostClient{
-		Addr: "example.com:80",
-		Dial: func(addr string) (net.Conn, error) {
-			pc := fasthttputil.NewPipeConns()
-			peer := &c34Peer{}
-			peersMu.Lock()
-			peers = append(peers, peer)
-			idx := len(peers)
-			conns = append(conns, pc.Conn1())
-			peersMu.Unlock()
-			// the first connection dies after the request has been received, before any response byte
-			die := v.Sc.ConnFault == "after-write" && idx == 1
-			s := &Server{
-				Handler: func(ctx *RequestCtx) {
-					peersMu.Lock()
-					peer.body, peer.got = append([]byte(nil), ctx.Request.Body()...), true
-					peer.answered = !die
-					peersMu.Unlock()
-					if die {
-						ctx.Conn().Close()
-						return
-					}
-					ctx.SetBodyString("ok")
-				},
-				Logger:             c34NullLogger{},
-				MaxRequestBodySize: 64 << 20,
-			}
-			srvDone.Add(1)
-			go func() { defer srvDone.Done(); s.ServeConn(pc.Conn2()) }() //nolint:errcheck
-			return &c34FaultConn{Conn: pc.Conn1(), limit: limit}, nil
-		},
-		ReadTimeout:  120 * time.Second,
-		WriteTimeout: 120 * time.Second,
+	dial := func(addr string) (net.Conn, error) {
+		pc := fasthttputil.NewPipeConns()
+		peer := &c34Peer{}
+		peersMu.Lock()
+		peers = append(peers, peer)
+		idx := len(peers)
+		conns = append(conns, pc.Conn1())
+		peersMu.Unlock()
+		// the first connection dies after the request has been received, before any response byte
+		die := v.Sc.ConnFault == "after-write" && idx == 1
+		s := &Server{
+			Handler: func(ctx *RequestCtx) {
+				peersMu.Lock()
+				peer.body, peer.got = append([]byte(nil), ctx.Request.Body()...), true
+				peer.answered = !die
+				peersMu.Unlock()
+				if die {
+					ctx.Conn().Close()
+					return
+				}
+				ctx.SetBodyString("ok")
+			},
+			Logger:             c34NullLogger{},
+			MaxRequestBodySize: 64 << 20,
+		}
+		srvDone.Add(1)
+		go func() { defer srvDone.Done(); s.ServeConn(pc.Conn2()) }() //nolint:errcheck
+		return &c34FaultConn{Conn: pc.Conn1(), limit: limit}, nil
+	}
+	hc := &HostClient{Addr: "example.com:80", Dial: dial, ReadTimeout: 120 * time.Second, WriteTimeout: 120 * time.Second}
+	cl := &Client{Dial: dial, ReadTimeout: 120 * time.Second, WriteTimeout: 120 * time.Second}
+	pl := &PipelineClient{Addr: "example.com:80", Dial: dial, ReadTimeout: 120 * time.Second, WriteTimeout: 120 * time.Second}
+	const long = 300 * time.Second // never expires: the timeout variants are exercised for their code path
+	var do func(req *Request, resp *Response) error
+	switch entry {
+	case "HostClient.Do":
+		do = hc.Do
+	case "HostClient.DoTimeout":
+		do = func(q *Request, p *Response) error { return hc.DoTimeout(q, p, long) }
+	case "HostClient.DoDeadline":
+		do = func(q *Request, p *Response) error { return hc.DoDeadline(q, p, time.Now().Add(long)) }
+	case "Client.Do":
+		do = cl.Do
+	case "Client.DoTimeout":
+		do = func(q *Request, p *Response) error { return cl.DoTimeout(q, p, long) }
+	case "Client.DoDeadline":
+		do = func(q *Request, p *Response) error { return cl.DoDeadline(q, p, time.Now().Add(long)) }
+	case "PipelineClient.Do":
+		do = pl.Do
+	case "PipelineClient.DoTimeout":
+		do = func(q *Request, p *Response) error { return pl.DoTimeout(q, p, long) }
+	case "PipelineClient.DoDeadline":
+		do = func(q *Request, p *Response) error { return pl.DoDeadline(q, p, time.Now().Add(long)) }
+	default:
+		vfInfra("c34: unknown client entry " + entry)
+		return
 	}
 	req := AcquireRequest()
 	req.SetRequestURI("http://example.com/p")
@@ -758,15 +782,17 @@ func (r *c34Run) liveClient(v *c34Vec, unit, limit, salt int) {
 			how = "PUT"
 		case 1:
 			hc.RetryIf = func(*Request) bool { return true }
+			cl.RetryIf = hc.RetryIf
 			how = "POST+RetryIf"
 		default:
 			hc.RetryIfErr = func(*Request, int, error) (bool, bool) { return false, true }
+			cl.RetryIfErr = hc.RetryIfErr
 			how = "POST+RetryIfErr"
 		}
 	}
 	req.SetBodyStream(stream, c34Declared(v, unit))
 	resp := AcquireResponse()
-	err, panicked := c34Call(func() error { return hc.Do(req, resp) })
+	err, panicked := c34Call(func() error { return do(req, resp) })
 	failed := err != nil || panicked
 	r.count(v, bind)
 	e := v.Expect
@@ -791,6 +817,7 @@ func (r *c34Run) liveClient(v *c34Vec, unit, limit, salt int) {
 	r.checkCounts(v, bind, "at-end", unit, limit, core, e.CloseFinal, 0)
 	ReleaseResponse(resp)
 	hc.CloseIdleConnections()
+	cl.CloseIdleConnections()
 	peersMu.Lock()
 	for _, c := range conns {
 		c.Close()
@@ -808,8 +835,14 @@ func (r *c34Run) liveClient(v *c34Vec, unit, limit, salt int) {
 	// whenever Do reported success the peer that answered received exactly the stream's bytes
 	peersMu.Lock()
 	defer peersMu.Unlock()
-	if len(peers) > 1 {
-		r.viol(v, bind, "request-with-body-stream-resent", unit, limit, "Do (%s) used %d connections for a request whose body stream can be read only once", how, len(peers))
+	received := 0
+	for _, p := range peers {
+		if p.got {
+			received++
+		}
+	}
+	if received > 1 {
+		r.viol(v, bind, "request-with-body-stream-resent", unit, limit, "Do (%s): %d connections received the request, whose body stream can be read only once", how, received)
 	}
 	if !failed {
 		var ans *c34Peer
@@ -1490,13 +1523,29 @@ func (r *c34Run) compressedCloseAll(t *testing.T) {
 func TestVerifC34BodyStream(t *testing.T) {
 	vfOpen(t)
 	var vecs []*c34Vec
+	entries := []string{"HostClient.Do"}
 	vfEachLine(t, "", func(line []byte) {
 		v := new(c34Vec)
 		if err := json.Unmarshal(line, v); err != nil {
 			t.Fatalf("bad vector %s: %v", line, err)
 		}
+		if len(v.Entries) > 0 {
+			entries = v.Entries
+			return
+		}
 		vecs = append(vecs, v)
 	})
+	// a seed-chosen client entry point per scenario; the pipelining client writes on its own
+	// goroutine, so scenarios with a panicking Read or a faulting writer use the others
+	pickEntry := func(rng interface{ Intn(int) int }, v *c34Vec, limit int) string {
+		for {
+			e := entries[rng.Intn(len(entries))]
+			if strings.HasPrefix(e, "PipelineClient") && (v.Sc.PanicAt != 0 || limit >= 0) {
+				continue
+			}
+			return e
+		}
+	}
 	run := &c34Run{t: t, perBind: map[string]int{}}
 	nw := vfEnvInt("VERIF_C34_WORKERS", 4)
 	liveEvery := vfEnvInt("VERIF_C34_LIVE_EVERY", 3)
@@ -1521,7 +1570,7 @@ func TestVerifC34BodyStream(t *testing.T) {
 					continue
 				}
 				if v.Sc.viaClient() {
-					run.liveClient(v, unit, -1, salt)
+					run.liveClient(v, unit, -1, salt, pickEntry(rng, v, -1))
 					continue
 				}
 				bufSize := []int{16, 4096}[rng.Intn(2)]
@@ -1543,7 +1592,7 @@ func TestVerifC34BodyStream(t *testing.T) {
 						if v.Sc.Owner == "resp" {
 							run.liveServer(v, unit, off, salt)
 						} else {
-							run.liveClient(v, unit, off, salt)
+							run.liveClient(v, unit, off, salt, pickEntry(rng, v, off))
 						}
 					}
 				}
